@@ -8,6 +8,8 @@ pub mod c06;
 #[cfg(feature = "full")]
 pub mod c07;
 #[cfg(feature = "full")]
+pub mod c08;
+#[cfg(feature = "full")]
 pub mod c15;
 #[cfg(feature = "full")]
 pub mod c20;
@@ -18,6 +20,8 @@ pub fn run(ctx: &Ctx) -> Option<Report> {
         "C06" => Some(c06::run(ctx)),
         #[cfg(feature = "full")]
         "C07" => Some(c07::run(ctx)),
+        #[cfg(feature = "full")]
+        "C08" => Some(c08::run(ctx)),
         #[cfg(feature = "full")]
         "C15" => Some(c15::run(ctx)),
         #[cfg(feature = "full")]
@@ -36,6 +40,8 @@ pub fn replay(ctx: &Ctx, j: &J, path: &str) -> i32 {
         "C06" => c06::replay(sub, case, &mut acc),
         #[cfg(feature = "full")]
         "C07" => c07::replay(sub, case, &mut acc),
+        #[cfg(feature = "full")]
+        "C08" => c08::replay(sub, case, &mut acc),
         #[cfg(feature = "full")]
         "C15" => c15::replay(sub, case, &mut acc),
         #[cfg(feature = "full")]
